@@ -1,8 +1,193 @@
-/- Model driver for C11 (stub: no ops yet). -/
+/-
+  Model driver for C11 (sunpath.py: daylight saving, sunrise/noon/sunset, analemmas, day arcs).
+  Line protocol: see DrvCore.  Imports only Mathlib-free files.  Floats travel as 16-hex-digit IEEE
+  bit patterns in both directions.
+
+  Tokens shared by the ops:
+    <cfg>    = lat lon tz|none north spleap              (as in Drv/C05)
+    <period> = none | stM stD stH endM endD endH leap     (the daylight-saving AnalysisPeriod as stored)
+    <dt>     = leap month day hour minute
+-/
 import Ladybug.DrvCore
+import Ladybug.Model.SunTimes
+
+open Drv
 
 namespace DrvC11
-def handle (_toks : List String) : String := "bad-op"
+
+def fb (x : Float) : String := showFloatBits x
+
+def showCalErr : Cal.Err → String
+  | .value => "err:value"
+  | .index => "err:index"
+  | .type => "err:type"
+
+def showAErr : SunTimes.AErr → String
+  | .value => "err:value"
+  | .zero => "err:zero"
+  | .index => "err:index"
+
+def showDErr : SunTimes.DErr → String
+  | .dt e => showCalErr e
+  | .sun _ => "err:assert"
+  | .a e => showAErr e
+
+def ofN (n : Nat) : Float := n.toFloat
+def ofI (i : Int) : Float := Float.ofInt i
+def toRat (f : Float) : Option Rat := Py.ratOfFloatBits f.toBits
+
+def tz? (s : String) : Option (Option Float) :=
+  if s = "none" then some none else (fun f => some f) <$> floatBits? s
+
+def cfg? (lat lon tz north leap : String) : Option (Sun.Cfg Float) := do
+  let la ← floatBits? lat
+  let lo ← floatBits? lon
+  let t ← tz? tz
+  let n ← floatBits? north
+  let l ← bool? leap
+  pure ⟨la, lo, t, n, l⟩
+
+/-- Parse `<period>` off the front of a token list. -/
+def period? (toks : List String) : Option (Option AP × List String) :=
+  match toks with
+  | "none" :: rest => some (none, rest)
+  | a :: b :: c :: d :: e :: f :: l :: rest =>
+    match nats [a, b, c, d, e, f], bool? l with
+    | some [a, b, c, d, e, f], some l => some (some ⟨a, b, c, d, e, f, 1, l⟩, rest)
+    | _, _ => none
+  | _ => none
+
+def dt? (toks : List String) : Option (Except Cal.Err Cal.DT × List String) :=
+  match toks with
+  | l :: mo :: da :: h :: mi :: rest =>
+    match bool? l, nats [mo, da, h, mi] with
+    | some l, some [mo, da, h, mi] => some (Cal.DT.make mo da h mi l, rest)
+    | _, _ => none
+  | _ => none
+
+def showDT (d : Cal.DT) : String := s!"{d.month}/{d.day}/{d.hour}/{d.minute}/{showBool d.leap}"
+
+def showODT : Option Cal.DT → String
+  | none => "-"
+  | some d => showDT d
+
+def showSunD (s : Sun.SunOut Float × Bool) : String :=
+  s!"{showDT s.1.dt} {fb s.1.altitude} {fb s.1.azimuth} {fb s.1.rev.1} {fb s.1.rev.2.1} {fb s.1.rev.2.2} {showBool s.1.duringDay} {showBool s.2}"
+
+def showOF : Option Float → String
+  | none => "-"
+  | some f => fb f
+
+def handle (toks : List String) : String :=
+  match toks with
+  | "dst" :: rest =>
+    match period? rest with
+    | some (p, rest) =>
+      match dt? rest with
+      | some (.ok d, []) => s!"ok {showBool (SunTimes.isDst p d.moy)}"
+      | some (.error e, []) => showCalErr e
+      | _ => "bad-op"
+    | none => "bad-op"
+  | "hmq" :: [bits] =>
+    match floatBits? bits with
+    | some f =>
+      match SunTimes.hmOf toRat ofI f with
+      | some r => s!"ok {r.1} {r.2}"
+      | none => "err:value"
+    | none => "bad-op"
+  | ["dayhour", leap, mo, da, h, mi] =>
+    match bool? leap, mo.toNat?, da.toNat?, h.toInt?, mi.toInt? with
+    | some leap, some mo, some da, some h, some mi =>
+      match SunTimes.fromDayHour leap mo da (h, mi) with
+      | .ok d => "ok " ++ showDT d
+      | .error e => showCalErr e
+    | _, _, _, _, _ => "bad-op"
+  | "sun" :: lat :: lon :: tz :: north :: spleap :: rest =>
+    match cfg? lat lon tz north spleap, period? rest with
+    | some c, some (p, solar :: rest) =>
+      match bool? solar, dt? rest with
+      | some solar, some (.ok d, []) =>
+        match SunTimes.sunOfDT ofN c p d solar with
+        | .ok s => "ok " ++ showSunD s
+        | .error _ => "err:assert"
+      | some _, some (.error e, []) => showCalErr e
+      | _, _ => "bad-op"
+    | _, _ => "bad-op"
+  | "riseset" :: lat :: lon :: tz :: north :: spleap :: rest =>
+    match cfg? lat lon tz north spleap, period? rest with
+    | some c, some (p, solar :: dep :: rest) =>
+      match bool? solar, floatBits? dep, dt? rest with
+      | some solar, some dep, some (.ok d, []) =>
+        match SunTimes.riseSet ofN toRat ofI c p d dep solar with
+        | .ok r => s!"ok {showODT r.sunrise} {showDT r.noon} {showODT r.sunset}"
+        | .error e => showCalErr e
+      | some _, some _, some (.error e, []) => showCalErr e
+      | _, _, _ => "bad-op"
+    | _, _ => "bad-op"
+  | "risesetmd" :: lat :: lon :: tz :: north :: spleap :: rest =>
+    match cfg? lat lon tz north spleap, period? rest with
+    | some c, some (p, [solar, dep, mo, da]) =>
+      match bool? solar, floatBits? dep, mo.toNat?, da.toNat? with
+      | some solar, some dep, some mo, some da =>
+        match SunTimes.riseSetMD ofN toRat ofI c p mo da dep solar with
+        | .ok r => s!"ok {showODT r.sunrise} {showDT r.noon} {showODT r.sunset}"
+        | .error e => showCalErr e
+      | _, _, _, _ => "bad-op"
+    | _, _ => "bad-op"
+  | "risesetf" :: lat :: lon :: tz :: north :: spleap :: rest =>
+    -- the float hours before rounding (used by the generator to aim at midnight boundaries)
+    match cfg? lat lon tz north spleap, period? rest with
+    | some c, some (p, [solar, dep, mo, da]) =>
+      match bool? solar, floatBits? dep, mo.toNat?, da.toNat? with
+      | some solar, some dep, some mo, some da =>
+        match Cal.DT.make mo da 12 0 c.leap with
+        | .ok d =>
+          let f := SunTimes.riseSetFloat ofN c p d dep solar
+          s!"ok {showOF f.1} {fb f.2.1} {showOF f.2.2}"
+        | .error e => showCalErr e
+      | _, _, _, _ => "bad-op"
+    | _, _ => "bad-op"
+  | "analemma" :: lat :: lon :: tz :: north :: spleap :: rest =>
+    match cfg? lat lon tz north spleap, period? rest with
+    | some c, some (p, [solar, daytime, sm, em, steps, h, mi]) =>
+      match bool? solar, bool? daytime, sm.toNat?, em.toNat?, steps.toInt?, h.toNat?, mi.toNat? with
+      | some solar, some daytime, some sm, some em, some steps, some h, some mi =>
+        match SunTimes.analemmaSuns ofN c p h mi daytime solar sm em steps with
+        | .ok l => s!"ok {l.length} " ++ joinSp (l.map showSunD)
+        | .error e => showDErr e
+      | _, _, _, _, _, _, _ => "bad-op"
+    | _, _ => "bad-op"
+  | "hourly" :: lat :: lon :: tz :: north :: spleap :: rest =>
+    match cfg? lat lon tz north spleap, period? rest with
+    | some c, some (p, [solar, daytime, sm, em, steps]) =>
+      match bool? solar, bool? daytime, sm.toNat?, em.toNat?, steps.toInt? with
+      | some solar, some daytime, some sm, some em, some steps =>
+        match SunTimes.hourlyAnalemmaSuns ofN c p daytime solar sm em steps with
+        | .ok ll => s!"ok {ll.length} " ++ joinSp (ll.map fun l => s!"{l.length} " ++ joinSp (l.map showSunD))
+        | .error e => showDErr e
+      | _, _, _, _, _ => "bad-op"
+    | _, _ => "bad-op"
+  | "dates" :: [sm, em, steps] =>
+    match sm.toNat?, em.toNat?, steps.toInt? with
+    | some sm, some em, some steps =>
+      match SunTimes.analemmaDates sm em steps with
+      | .ok l => s!"ok {l.length} " ++ joinSp (l.map fun x => s!"{x.1}/{x.2}")
+      | .error e => showAErr e
+    | _, _, _ => "bad-op"
+  | "dayarc" :: lat :: lon :: tz :: north :: spleap :: rest =>
+    match cfg? lat lon tz north spleap, period? rest with
+    | some c, some (p, [dep, daytime, mo, da]) =>
+      match floatBits? dep, bool? daytime, mo.toNat?, da.toNat? with
+      | some dep, some daytime, some mo, some da =>
+        match SunTimes.dayArcSuns ofN toRat ofI c p mo da dep daytime with
+        | .ok none => "ok none"
+        | .ok (some a) =>
+          s!"ok {if a.polar then "polar" else "arc"} {showSunD (a.first, false)} {showSunD (a.mid, false)} {showSunD (a.last, false)}"
+        | .error e => showDErr e
+      | _, _, _, _ => "bad-op"
+    | _, _ => "bad-op"
+  | _ => "bad-op"
+
 end DrvC11
 
 def main : IO Unit := Drv.run DrvC11.handle
